@@ -432,9 +432,20 @@ func c07free(c *Ctx) {
 	}
 	reach := an.Explore(fn, nil, f, nil)
 	okRet := len(f) == 1
+	// the capped view: the map that receives the MinResourceList entries
+	capped := map[ssa.Value]bool{}
+	for _, b := range fn.Blocks {
+		for _, in := range b.Instrs {
+			if mu, ok := in.(*ssa.MapUpdate); ok {
+				if call, ok := mu.Value.(*ssa.Call); ok && an.ShortCallee(&call.Call) == "MinResourceList" {
+					capped[mu.Map] = true
+				}
+			}
+		}
+	}
 	for _, ret := range reach.Returns() {
-		if !strings.Contains(an.Path(ret.Results[0]), "requiredDeviceFree") {
-			if _, isMk := ret.Results[0].(*ssa.MakeMap); !isMk {
+		for _, v := range reach.Values(ret.Results[0]) {
+			if !capped[v] {
 				okRet = false
 			}
 		}
